@@ -271,7 +271,11 @@ impl Matrix {
                 _ => unreachable!(),
             },
             Constructor::Variant((enum_def, idx)) => {
-                let data_ty = data_ty_of_variant(statics, enum_def, *idx);
+                let ty_args: &[Type] = match &expanded.types[0] {
+                    Type::Nominal(_, args) => args,
+                    _ => &[],
+                };
+                let data_ty = data_ty_of_variant(statics, enum_def, *idx, ty_args);
                 match data_ty {
                     Type::Never => unreachable!(),
                     Type::InterfaceOutput(..) => unreachable!(),
@@ -552,9 +556,9 @@ impl DeconstructedPat {
             {
                 struct_field_tys(statics, struct_def, args)
             }
-            Type::Nominal(_, _) => match ctor {
+            Type::Nominal(_, ty_args) => match ctor {
                 Constructor::Variant((enum_def, idx)) => {
-                    let data_ty = data_ty_of_variant(statics, enum_def, *idx);
+                    let data_ty = data_ty_of_variant(statics, enum_def, *idx, ty_args);
 
                     if !matches!(data_ty, Type::Void) {
                         vec![data_ty.clone()]
@@ -633,16 +637,30 @@ fn subst_solved_ty(ty: &Type, subst: &HashMap<PolytypeDeclaration, Type>) -> Typ
     }
 }
 
-fn data_ty_of_variant(statics: &StaticsContext, enum_def: &Rc<EnumDef>, idx: usize) -> Type {
+// `args` are the type arguments the enum is instantiated with in the column being examined
+fn data_ty_of_variant(
+    statics: &StaticsContext,
+    enum_def: &Rc<EnumDef>,
+    idx: usize,
+    args: &[Type],
+) -> Type {
+    let mut subst: HashMap<PolytypeDeclaration, Type> = HashMap::default();
+    for (i, ty_arg) in enum_def.ty_args.iter().enumerate() {
+        if let Some(Declaration::Polytype(decl)) = statics.resolution_map.get(&ty_arg.name.id)
+            && let Some(arg) = args.get(i)
+        {
+            subst.insert(decl.clone(), arg.clone());
+        }
+    }
     let variant = &enum_def.variants[idx];
     let variant_data = &variant.fields;
     match variant_data.len() {
         0 => Type::Void,
-        1 => variant_data[0].ty.to_solved_type(statics).unwrap(),
+        1 => subst_solved_ty(&variant_data[0].ty.to_solved_type(statics).unwrap(), &subst),
         _ => Type::Tuple(
             variant_data
                 .iter()
-                .map(|field| field.ty.to_solved_type(statics).unwrap())
+                .map(|field| subst_solved_ty(&field.ty.to_solved_type(statics).unwrap(), &subst))
                 .collect(),
         ),
     }
